@@ -8,7 +8,7 @@ use crate::{
         types::{CommonPlayer, CommonResponse, ExtraRequestSettings, GenericPlayer},
         GenericResponse,
     },
-    GDErrorKind::{InvalidInput, PacketBad, UnknownEnumCast},
+    GDErrorKind::{InvalidInput, PacketBad, PacketUnderflow, UnknownEnumCast},
     GDResult,
 };
 
@@ -275,6 +275,9 @@ pub(crate) fn as_varint(value: i32) -> Vec<u8> {
 
 pub(crate) fn get_string<B: ByteOrder>(buffer: &mut Buffer<B>) -> GDResult<String> {
     let length = get_varint(buffer)? as usize;
+    if length > buffer.remaining_length() {
+        return Err(PacketUnderflow.context("String length is larger than remaining bytes"));
+    }
     let mut text = Vec::with_capacity(length);
 
     for _ in 0 .. length {
